@@ -33,6 +33,21 @@ CHECKS = {
  "C19": ("model_checking", "complete enumeration of all 2^32 type codes on the real ShapeType::from (and Header::read_from in the thorough tier) against a literal ESRI table",
          "ShapeType::from for every one of the 2^32 codes (exactly 14 accepted, re-encoding is the identity, types match the table); header and record routes over a structured code set (all 2^32 headers in thorough); has_z/has_m/is_multipart/Display for the 14 types.",
          "exhaustive=true for the 2^32 domain. is_multipart is not judged for NullShape (the statement does not place it).", "DESIGN.md 3/C19"),
+ "C03": ("model_checking", "bounded exhaustive enumeration of spec-conformant files produced by the independent RefCodec encoder (foreign layouts included), each decoded by the real reader and compared record by record",
+         "14 file types x every record variant (0-3 parts of 0-3 vertices incl. empty first parts and zero parts, M block present/absent, PointZ 24/32 bytes, 4 stored-box variants, null records) x 5 numbering x 4 trailing variants; all 2- and 3-record tuples over representative variants; deviation sets <= d over every coordinate and box field from the full float alphabet (NaNs included).",
+         "Trusts the RefCodec encoder (cross-checked by C02, where the library writer's output is decoded by the RefCodec decoder). Ring roles and M ranges of absent M blocks are not in the statement.", "DESIGN.md 3/C03"),
+ "C07": ("model_checking", "complete enumeration of named mutation families (every 32-bit field x boundary values, every truncation, every single-bit flip, extensions, pattern tails, shifted files, interacting field pairs, unbacked count ladders) over 28 base files, each input driven through every reader entry point in an isolated worker process with overflow checks and debug assertions on",
+         "No panic, no abort, no hang (20 s watchdog), every iteration ends within len(shp)+len(shx)+16 items, for every input of the enumerated families.",
+         "The statement's random bit-flip sets and unstructured random bytes are sampling and are replaced by the complete families; inputs outside them are not covered.", "DESIGN.md 3/C07"),
+ "C14": ("model_checking", "bounded exhaustive enumeration: every permutation of physical record order x every filler combination (RefCodec-built .shp/.shx) read by the real ShapeReader::with_shx",
+         "n = 1..3 (thorough 4) records x all n! physical orders x 5 filler kinds in each of the n+1 gaps x 2 filler bytes, 5 types (thorough 13): iteration must yield one shape per index entry in index order, equal to random access and to the reported count.",
+         "Bounded n; fillers of even length only (offsets are in words).", "DESIGN.md 3/C14"),
+ "C15": ("model_checking", "stateright BFS over reader call histories (iterate j items, random access, seek, count, read-all) on the real ShapeReader / Reader; oracle = set-valued cursor model",
+         "All histories up to depth 3 (thorough 5) over 13 / 10 / 7 actions for ShapeReader with index, the complete Reader, ShapeReader without index, on files of 3 records with different and with equal sizes.",
+         "Bounded depth and n = 3. The model is non-deterministic exactly where the statement is (a further iteration may continue or restart).", "DESIGN.md 3/C15"),
+ "C17": ("model_checking", "same complete mutation families as C07 plus consistent-but-unbacked count ladders (2^10..2^27/2^30), each reader call measured by a counting global allocator in an isolated worker process",
+         "Peak live bytes above the level at call entry and the largest single request stay below 64 x input bytes + 64 KiB for every reader call on every enumerated input.",
+         "The additive constant (64 KiB) is the harness's reading of 'plus a constant'. Inputs outside the families are not covered.", "DESIGN.md 3/C17"),
 }
 
 NOT_YET = {}
